@@ -24,7 +24,7 @@ ASSUMPTIONS = ["default contour parameters M=16, r=1 unless stated in the case",
 AMBIENT = True            # thorough tier: the repository's own test-suite runs under this property's general monitor (rv/ambient.py)
 REQUIRED_AMBIENT = {'ambient_coef_exact': 200}
 TIMEOUT = {"quick": 900, "thorough": 3000}
-C_TOL = 64.0
+C_TOL = 256.0
 
 SEMILINEAR = [n for n, s in zoo.SPECS.items() if not s["linear"]]
 
@@ -108,9 +108,9 @@ def judge_coefs(bus, monitor, integ, order, z, dt, eps, sig, info, M=16, r=1.0):
         mag = np.abs(want) + abs(dt) * fac / (1 + np.abs(z)) ** (2 if fname == "b" else 1)      # natural magnitude of the coefficient near z (phi functions have isolated zeros, e.g. phi_1(2 pi i) = 0)
         judged = tol <= 1e-3 * mag
         node_dist = np.min(np.abs(z[..., None] + r * P.roots(M)), axis=-1)          # distance of z to the nearest node of the contour z + r*root_j = 0
-        # ill-conditioned entries are not judged against the exact value - unless the result is outright wrong (NaN / error above 1e-6): that is the
+        # ill-conditioned entries are not judged against the exact value - unless the result is outright garbage (NaN / error 10x the value itself): that is the
         # breakdown of the documented contour rule next to its own nodes, a genuine defect reachable only by complex symbols with |z| ~ r
-        broken = (~judged) & (~np.isfinite(got) | (np.abs(got - want) > max(1e-6, 3e4 * eps) * mag))
+        broken = (~judged) & (~np.isfinite(got) | (np.abs(got - want) > 10 * mag))       # outright garbage, not merely lost digits
         if broken.any():
             i = int(np.argmax(broken.reshape(-1)))
             bus.flag(monitor, f"{cname}: contour evaluation breaks down next to a contour node", sig + (cname, "ill-conditioned"),
@@ -166,6 +166,12 @@ def run_coef(case, bus, ex):
     bus.tap(f"ETDRK{order}.__init__")
     judge_coefs(bus, "coef_exact", integ, order, z, dt, eps, (order, fam, "x64" if x64 else "f32", "dt=1" if dt == 1 else "dt!=1"),
                 dict(order=order, family=fam, dt=dt, dtype=str(cd.__name__)))
+    if fam not in ("contour_nodes", "near_contour", "special"):
+        # documented constructor options: other contour resolutions / radii must give the same exact coefficients
+        for M_, r_ in ((32, 1.0), (16, 0.5), (24, 2.0), (64, 0.25)):
+            integ2 = cls(dt, jnp.asarray(Lop), nf, num_circle_points=M_, circle_radius=r_)
+            judge_coefs(bus, "coef_exact", integ2, order, z, dt, eps, (order, fam, "x64" if x64 else "f32", f"M={M_},r={r_}"),
+                        dict(order=order, family=fam, dt=dt, dtype=str(cd.__name__), num_circle_points=M_, circle_radius=r_), M=M_, r=r_)
     if order == 4:   # documented aliasing of the half-step coefficients
         same = bool(np.array_equal(np.asarray(integ._coef_1), np.asarray(integ._coef_2), equal_nan=True) and np.array_equal(np.asarray(integ._coef_1), np.asarray(integ._coef_3), equal_nan=True))
         (bus.ok if same else bus.flag)("coef_exact", *( [("etdrk4_half_step_alias",)] if same else ["coef_2/3 differ from coef_1", ("etdrk4_half_step_alias",)]))
@@ -187,6 +193,10 @@ def run_stepper(case, bus, ex):
     name, D, N, v = case["cls"], case["D"], case["N"], case["v"]
     for order in (0, 1, 2, 3, 4):
         it = zoo.make_intent(rng, name, D, N, variant=v, order=order)
+        Mr = (16, 1.0)
+        if order >= 1 and rng.uniform() < 0.35:
+            Mr = [(32, 1.0), (16, 0.5), (24, 2.0)][int(rng.integers(0, 3))]
+            it["kw"]["num_circle_points"], it["kw"]["circle_radius"] = Mr
         st = zoo.build(ex, it)
         integ = st._integrator
         rec = taps.etdrk_intent(integ)
@@ -201,7 +211,7 @@ def run_stepper(case, bus, ex):
         info = dict(intent=it)
         has_imag = bool(np.any(np.abs(z.imag) > 0))
         if order >= 1:
-            judge_coefs(bus, "coef_stepper", integ, order, z, dt, float(np.finfo(np.float64).eps), sig + ("imag" if has_imag else "real",), info)
+            judge_coefs(bus, "coef_stepper", integ, order, z, dt, float(np.finfo(np.float64).eps), sig + ("imag" if has_imag else "real", Mr), info, M=Mr[0], r=Mr[1])
         C = zoo.channels(it)
         u = stepper_state(rng, C, D, N)
         uh = np.fft.rfftn(u, axes=G.axes(D))
